@@ -132,7 +132,34 @@ def backends():
             "sa-core": lambda: AstToSqlAlchemyCoreVisitor(Msa.__table__), "sql": lambda: AstToSqlVisitor()}
 
 
+def direct_typecheck(ctx):
+    """typing.typecheck itself: every literal kind against every allowed set the backends use"""
+    allowed_sets = [ast.String, (ast.Identifier, ast.String), (ast.String,), ast.Integer, (ast.Integer, ast.Float), ast.Boolean, (ast.Date, ast.DateTime)]
+    for kind, lit in LITERALS.items():
+        node = _ps.parse(_lx.tokenize(to_odata(lit)))
+        cls = type(node)
+        for allowed in allowed_sets:
+            ok_set = allowed if isinstance(allowed, tuple) else (allowed,)
+            should_accept = cls in ok_set
+            ctx.count("executions")
+            ctx.count("states")
+            try:
+                otyping.typecheck(node, allowed, "arg")
+                accepted = True
+            except exceptions.ArgumentTypeException:
+                accepted = False
+            except Exception as e:  # noqa
+                ctx.violation("typecheck-direct-foreign:%s" % type(e).__name__, {"text": to_odata(lit), "allowed": repr(allowed), "check": "typecheck-direct", "backend": "-"})
+                continue
+            if accepted != should_accept:
+                ctx.violation("typecheck-direct:%s:%s" % (kind, "accepted" if accepted else "rejected"),
+                              {"text": to_odata(lit), "allowed": repr(allowed), "expected": "accept" if should_accept else "reject", "check": "typecheck-direct", "backend": "-"})
+            else:
+                ctx.outcome(("tc-direct", kind, accepted))
+
+
 def typecheck_layer(ctx):
+    direct_typecheck(ctx)
     bks = backends()
     en = enum()
     good_str = [t for k in (0, 1) for t in en.terms(S, k) if "indexof" not in to_odata(t)]
